@@ -224,6 +224,10 @@ func (c *UDPConn) WriteToUDP(p []byte, ua *net.UDPAddr) (int, error) {
 	if len(p) > 65507 {
 		return 0, opErr("write", "udp", ua, syscall.EMSGSIZE)
 	}
+	if ua.Port == 0 {
+		// Linux refuses to send to port 0
+		return 0, opErr("write", "udp", ua, syscall.EINVAL)
+	}
 	faulty := !c.Foreign || !w.FaultOnlyHost
 	c.LastSent = nil
 	if !c.Foreign && !isWild(c.bindIP) && w.UDPWriteErrBound > 0 && simrt.S.Fault.Permille(w.UDPWriteErrBound) {
